@@ -1,6 +1,7 @@
 package main
 
 import (
+	"strconv"
 	"fmt"
 	"os"
 	"path/filepath"
@@ -247,6 +248,7 @@ func opDiskFind(f []string) string {
 		o.Add("be", "1")
 		o.Add("exist", "1")
 		o.Add("strictok", "1")
+		o.Add("again", xAgain(real, st))
 		return o.String()
 	}
 	o.Add("found", "1")
@@ -281,6 +283,7 @@ func opDiskFind(f []string) string {
 	o.Add("be", showBool(be))
 	o.Add("exist", showBool(exist))
 	o.Add("strictok", showBool(strictok))
+	o.Add("again", xAgain(real, st))
 	return o.String()
 }
 
@@ -420,6 +423,26 @@ func genDiskScan(r *Rand, n int, thorough bool, emit func(string)) {
 		}
 		emit(fmt.Sprintf("disk.scan %d %s %s %s %s%s", r.Intn(4), r.Pick([]string{"1", "4"}), hx(arg), dirok, entsString(ents), dn))
 	}
+}
+
+// xAgain: a strict lookup, a loose one through a PREFIX of the same option slice (spare capacity),
+// the strict one again — the option list is the caller's, the library may not write to it, so the
+// first and third answers are the same
+func xAgain(pattern string, st fileseq.PadStyle) string {
+	all := append(make([]fileseq.FileOption, 0, 8), fileseq.HiddenFiles, fileseq.StrictPadding)
+	show := func(s *fileseq.FileSequence, err error) string {
+		if err != nil {
+			return "err"
+		}
+		if s == nil {
+			return "nil"
+		}
+		return s.String() + "|" + strconv.Itoa(s.ZFill())
+	}
+	r1 := show(fileseq.FindSequenceOnDiskPad(pattern, st, all...))
+	_, _ = fileseq.FindSequenceOnDiskPad(pattern, st, all[:1]...)
+	r3 := show(fileseq.FindSequenceOnDiskPad(pattern, st, all...))
+	return showBool(r1 == r3)
 }
 
 func genDiskFind(r *Rand, n int, thorough bool, emit func(string)) {
